@@ -1224,4 +1224,111 @@ theorem txif_closed (E : Ell ℝ) (tphi : ℝ) (hf : 0 < E.f) (he2 : 0 < E.e2) (
   have hsq : Real.sqrt (QZ ^ 2 - Q ^ 2) ≠ 0 := (Real.sqrt_pos.mpr hpos).ne'
   field_simp
 
+/-! ### Non-vacuity of the kernel theorems' hypotheses -/
+
+example : ((4 / 5 : ℝ)) ^ 2 = (1 - 3 / 5) * (1 + 3 / 5) := by norm_num   -- `n² + nc² = 1`
+
+/-- sphere: `tchi = tphi` -/
+theorem tchiOf_sphere (s t c : ℝ) : tchiOf (⟨1, 0⟩ : Ell ℝ).es s t c = t := by
+  have hes : (⟨1, 0⟩ : Ell ℝ).es = 0 := by
+    simp [Ell.es, Ell.e2, ltb_real, zero_real, one_real, two_real]
+  rw [hes]
+  simp [tchiOf, eatanhe, ltb_real, zero_real, hyp_real]
+
+/-- `lcc_reverse_forward_kernel`: sphere, cone constant 3/5, point at latitude `atan(3/4)` -/
+example : ∃ (tauf : ℝ → ℝ → ℝ) (E : Ell ℝ) (L : LCC ℝ) (sphi cphi psi0 : ℝ),
+    (epsx : ℝ) ≤ cphi ∧ tauf (tchiOf E.es sphi (sphi / cphi) (1 / cphi)) E.es = sphi / cphi ∧ 0 < L.n ∧
+    L.nc ^ 2 = (1 - L.n) * (1 + L.n) ∧ L.scale ≠ 0 ∧ L.t0nm1 = expm1 (-L.n * psi0) ∧ L.psi0 = psi0 ∧ L.tchi0 = Real.sinh psi0 ∧
+    L.scchi0 = Real.cosh psi0 ∧ 0 ≤ L.nrho0 ∧ Real.arsinh (tchiOf E.es sphi (sphi / cphi) (1 / cphi)) ≠ psi0 ∧
+    0 < L.nrho0 + L.n * (L.scale / L.n * (Real.exp (-L.n * Real.arsinh (tchiOf E.es sphi (sphi / cphi) (1 / cphi))) - Real.exp (-L.n * psi0))) ∧
+    L.scale / L.n * (Real.exp (-L.n * Real.arsinh (tchiOf E.es sphi (sphi / cphi) (1 / cphi))) - Real.exp (-L.n * psi0)) ≤ L.drhomax := by
+  refine ⟨fun t _ => t, ⟨1, 0⟩, ⟨1, 3 / 5, 4 / 5, 0, 1, 0, 1, 1, 0, 1, 0, 1, 10⟩, 3 / 5, 4 / 5, 0, ?_, ?_, ?_, ?_, ?_, ?_, ?_, ?_, ?_, ?_, ?_, ?_, ?_⟩
+  · simp only [epsx, eps, sq_real, one_real, ofNat_real]; norm_num
+  · simp only [tchiOf_sphere]
+  · norm_num
+  · norm_num
+  · norm_num
+  · simp [expm1_real]
+  · rfl
+  · simp
+  · simp
+  · norm_num
+  · rw [tchiOf_sphere]
+    intro h
+    have := Real.arsinh_eq_zero_iff.mp h
+    norm_num at this
+  · rw [tchiOf_sphere]
+    have h := Real.exp_pos (-(3 / 5 : ℝ) * Real.arsinh (3 / 5 / (4 / 5)))
+    simp only [mul_zero, Real.exp_zero]
+    have e : (1 : ℝ) + 3 / 5 * (1 / (3 / 5) * (Real.exp (-(3 / 5) * Real.arsinh (3 / 5 / (4 / 5))) - 1)) = Real.exp (-(3 / 5) * Real.arsinh (3 / 5 / (4 / 5))) := by
+      field_simp; ring
+    rw [e]; exact h
+  · rw [tchiOf_sphere]
+    simp only [mul_zero, Real.exp_zero]
+    have hpos : 0 < Real.arsinh ((3 / 5 : ℝ) / (4 / 5)) := Real.arsinh_pos_iff.mpr (by norm_num)
+    have hlt : Real.exp (-(3 / 5 : ℝ) * Real.arsinh (3 / 5 / (4 / 5))) < 1 := by
+      rw [Real.exp_lt_one_iff]; nlinarith
+    nlinarith
+
+
+/-- `alb_reverse_forward_kernel`: sphere, a cone whose origin is the point itself -/
+example : ∃ (tphif : ℝ → ℝ) (E : Ell ℝ) (A : ALB ℝ) (sphi cphi : ℝ),
+    (epsx : ℝ) ≤ cphi ∧ tphif (txif E (sphi / cphi)) = sphi / cphi ∧ E.a ≠ 0 ∧ E.qZ ≠ 0 ∧ A.k0 ≠ 0 ∧ 0 < A.n0 ∧ 0 < A.m02 ∧
+    A.nrho0 = E.a * Real.sqrt A.m02 ∧ A.scxi0 = hyp A.txi0 ∧ A.sxi0 = A.txi0 / hyp A.txi0 ∧
+    0 ≤ A.m02 - A.n0 * albDq E.qZ (txif E (sphi / cphi)) (txif E (sphi / cphi) / hyp (txif E (sphi / cphi))) A.txi0 A.sxi0 ∧
+    0 < A.nrho0 + A.n0 * albDrho E.a A.m02 A.n0 A.nrho0
+            (albDq E.qZ (txif E (sphi / cphi)) (txif E (sphi / cphi) / hyp (txif E (sphi / cphi))) A.txi0 A.sxi0) ∧
+    0 ≤ A.nrho0 ∧ RealLike.sq (epsx : ℝ) ≤ hyp A.txi0 ^ 2 / hyp (txif E (sphi / cphi)) ^ 2 := by
+  have hq : (⟨1, 0⟩ : Ell ℝ).qZ = 2 := by
+    simp [Ell.qZ, Ell.e2m, Ell.e2, Ell.atanhee, atanhee, ltb_real, zero_real, one_real, two_real]
+    norm_num
+  set t := txif (⟨1, 0⟩ : Ell ℝ) ((3 / 5 : ℝ) / (4 / 5)) with ht
+  have hdq : albDq (⟨1, 0⟩ : Ell ℝ).qZ t (t / hyp t) t (t / hyp t) = 0 := by simp [albDq]
+  refine ⟨fun _ => (3 / 5 : ℝ) / (4 / 5), ⟨1, 0⟩, ⟨1, 0, 1, 1 / 2, 1, 1, 1, t, hyp t, t / hyp t⟩, 3 / 5, 4 / 5,
+    ?_, rfl, ?_, ?_, ?_, ?_, ?_, ?_, rfl, rfl, ?_, ?_, ?_, ?_⟩
+  · simp only [epsx, eps, sq_real, one_real, ofNat_real]; norm_num
+  · norm_num
+  · rw [hq]; norm_num
+  · norm_num
+  · norm_num
+  · norm_num
+  · simp
+  · simp only [← ht, hdq]; norm_num
+  · simp only [← ht, hdq]; simp [albDrho]
+  · norm_num
+  · simp only [← ht]
+    have hp := hyp_pos t
+    rw [div_self (by positivity)]
+    simp only [epsx, eps, sq_real, one_real, ofNat_real]; norm_num
+
+
+/-- `txif_closed`: `f = 1/2` at the equator -/
+example : ∃ (E : Ell ℝ) (tphi : ℝ), 0 < E.f ∧ 0 < E.e2 ∧ E.e2 < 1 ∧
+    (tphi / hyp tphi / (1 - E.e2 * (tphi / hyp tphi) ^ 2) + E.atanhee (tphi / hyp tphi)) ^ 2 < (1 / E.e2m + E.atanhee 1) ^ 2 := by
+  refine ⟨⟨1, 1 / 2⟩, 0, by norm_num, ?_, ?_, ?_⟩
+  · simp only [Ell.e2, two_real]; norm_num
+  · simp only [Ell.e2, two_real]; norm_num
+  · have he2 : (⟨1, 1 / 2⟩ : Ell ℝ).e2 = 3 / 4 := by simp only [Ell.e2, two_real]; norm_num
+    have hem : (⟨1, 1 / 2⟩ : Ell ℝ).e2m = 1 / 4 := by simp only [Ell.e2m, he2, one_real]; norm_num
+    have hepos : 0 < (⟨1, 1 / 2⟩ : Ell ℝ).e := by
+      simp only [Ell.e, he2, sqrt_real, abs_real]; positivity
+    have he1 : (⟨1, 1 / 2⟩ : Ell ℝ).e < 1 := by
+      simp only [Ell.e, he2, sqrt_real, abs_real]
+      rw [abs_of_pos (by norm_num : (0 : ℝ) < 3 / 4)]
+      calc Real.sqrt (3 / 4) < Real.sqrt 1 := Real.sqrt_lt_sqrt (by norm_num) (by norm_num)
+        _ = 1 := Real.sqrt_one
+    have hz : (⟨1, 1 / 2⟩ : Ell ℝ).atanhee 0 = 0 := by
+      simp [Ell.atanhee, atanhee, ltb_real, zero_real]
+    have h1 : 0 ≤ (⟨1, 1 / 2⟩ : Ell ℝ).atanhee 1 := by
+      simp only [Ell.atanhee, atanhee, ltb_real, zero_real, atanh_real, mul_one]
+      have : (0 : ℝ) < 1 / 2 := by norm_num
+      simp only [this, decide_true, if_true]
+      set e := (⟨1, 1 / 2⟩ : Ell ℝ).e
+      have : 1 ≤ (1 + e) / (1 - e) := by
+        rw [le_div_iff₀ (by linarith)]; linarith
+      have := Real.log_nonneg this
+      positivity
+    simp only [zero_div, hz, hem]
+    nlinarith
+
 end GeoVerif.Props.C11
